@@ -57,6 +57,20 @@ func (k Keeper) CheckAndLiquidateUnhealthyPosition(parentCtx sdk.Context, mtp *t
 
 	k.SetPool(ctx, pool)
 
+	// Settling borrow interest and funding fee changed custody: refresh whatever depends on it
+	// (accounted pool), also when the position turns out to be healthy and stays open
+	if k.hooks != nil {
+		ammPool, err = k.GetAmmPool(ctx, mtp.AmmPoolId)
+		if err != nil {
+			return err
+		}
+		params := k.GetParams(ctx)
+		err = k.hooks.AfterPerpetualPositionModified(ctx, ammPool, pool, mtp.GetAccountAddress(), params.EnableTakeProfitCustodyLiabilities)
+		if err != nil {
+			return err
+		}
+	}
+
 	// check MTP health against threshold
 	safetyFactor := k.GetSafetyFactor(ctx)
 
